@@ -126,7 +126,11 @@ def main():
         "crash stream only (no theorem): CUE front-end, jennies/templates, veneer builder rules, nil checks, converters",
         "termination of the Go front-ends (seen set / structural recursion) is argued, not proved; hangs are searched with a per-case watchdog",
     ]
-    hb, err = build_go("verifharness", "harness", files=HARNESS_BASE + ["c04_*.go"], tag="c04")
+    # a private copy of the repository (VERIF_REPO, mutant self-tests) gets its own binary, so that a run on
+    # /repo going on at the same time keeps spawning workers built from /repo
+    import hashlib
+    tag = "c04" if REPO == "/repo" else "c04-" + hashlib.sha1(REPO.encode()).hexdigest()[:8]
+    hb, err = build_go("verifharness", "harness", files=HARNESS_BASE + ["c04_*.go"], tag=tag)
     c.oblige("harness builds against the cog working tree", hb is not None, err)
     ok, detail = gen_c04.regen()
     c.oblige("xpartial extractor ran on the cog working tree", ok, detail)
